@@ -117,6 +117,8 @@ class Finding:
 
 
 class OwnAnalyzer:
+    _inl_cache = {}
+
     def __init__(self, units, u, fn, fresh, tolerant, alloc_may_fail=True):
         self.units = units
         self.u = u
@@ -134,6 +136,8 @@ class OwnAnalyzer:
             if t['c'] in ('record', 'array'):
                 self.local_records[d['d']] = d['n']
         self.param_ids = {p['d'] for p in fn.params}
+        self.inlined = False
+        self.depth = 0
 
     # ---- keys ----------------------------------------------------------------------------------------------
     def var_key(self, e):
@@ -303,12 +307,27 @@ class OwnAnalyzer:
             if op == '*':
                 outs = []
                 for (s2, bv) in self.eval(e['e'], st, node):
+                    if bv[0] == 'ptrto':
+                        outs.append((s2, s2.vals.get(bv[1], UNK)))
+                        continue
                     s2 = self.deref(s2, bv, e, node)
                     if s2 is not None:
                         outs.append((s2, ('deref', bv) if bv[0] == 'tok' else UNK))
                 return outs
             if op in ('post++', 'post--', 'pre++', 'pre--'):
-                return [(s2, UNK) for (s2, _v) in self.eval(e['e'], st, node)]
+                key = self.var_key(e['e'])
+                outs = []
+                for (s2, v) in self.eval(e['e'], st, node):
+                    if key is not None and key in s2.vals:
+                        s2 = s2.copy()
+                        if v[0] == 'int':
+                            s2.vals[key] = ('int', v[1] + (1 if '++' in op else -1))
+                            if abs(s2.vals[key][1]) > 3:
+                                del s2.vals[key]      # counters are not tracked beyond a few steps
+                        elif v[0] != 'tok':
+                            del s2.vals[key]
+                    outs.append((s2, UNK))
+                return outs
             if op == '!':
                 return [(s2, UNK) for (s2, _v) in self.eval(e['e'], st, node)]
             return [(s2, UNK) for (s2, _v) in self.eval(e['e'], st, node)]
@@ -439,6 +458,14 @@ class OwnAnalyzer:
             outs = []
             for (s2, bv) in self.eval(l['e'], st, node):
                 s2 = s2.copy()
+                if bv[0] == 'ptrto':
+                    self.overwrite(s2, bv[1], node, at)
+                    if v == UNK:
+                        s2.vals.pop(bv[1], None)
+                    else:
+                        s2.vals[bv[1]] = v
+                    outs.append((s2, v))
+                    continue
                 s2 = self.deref(s2, bv, l, node)
                 if s2 is None:
                     continue
@@ -633,6 +660,9 @@ class OwnAnalyzer:
                 s_f.hist = s_f.hist + ('%d:%s fails (%s)' % (c['loc'][0], cn, reasons[0]),)
                 outs.append((s_f, ('retflag', c['id'], False)))
             return outs
+        # 5b. small non-recursive helpers of the same unit are followed ("abstract inlining")
+        if cn in self.u.functions and self.depth < 2 and self.inlinable(cn):
+            return self.inline(cn, c, st, vs, node)
         # 6. everything else borrows; a callee that gets a non-const pointer to a local aggregate may release and
         #    clear (or replace) the blocks its fields hold
         outs = [st]
@@ -677,6 +707,68 @@ class OwnAnalyzer:
                     nxt.append(s3)
                 outs = nxt
         return [(s2, UNK) for s2 in outs]
+
+    def inlinable(self, cn):
+        callee = self.u.functions[cn]
+        if callee.name == self.fn.name or not callee.static:
+            return False
+        cache = OwnAnalyzer._inl_cache
+        key = (id(self.u), cn)
+        if key not in cache:
+            cfg = callee.cfg()
+            small = len(cfg.nodes) <= 60
+            rec = any(callee_name(x) == cn for x in callee.calls())
+            has_alloc = any((callee_name(x) in self.fresh or callee_name(x) in DETACHERS or callee_name(x) in CONSUME_ALWAYS or
+                             callee_name(x) in CONSUME_ON_SUCCESS or callee_name(x) in RELEASES or
+                             (callee_name(x) is None and indirect_field(x) in ('allocate', 'reallocate', 'deallocate')))
+                            for x in callee.calls())
+            # helpers that move pointers around: they store a parameter somewhere, or write through an out-parameter
+            moves = False
+            pds = {p['d'] for p in callee.params}
+            for a in assignments(callee):
+                l = strip_casts(a['l'])
+                if l.get('k') in ('mem', 'un', 'idx'):
+                    if any(x.get('k') == 'ref' and x.get('d') in pds for x in walk(a['r'])) or l.get('k') == 'un':
+                        moves = True
+            cache[key] = small and not rec and (moves or has_alloc) and cn not in CONSUME_ON_SUCCESS and cn not in RELEASES \
+                and cn not in self.fresh and cn not in DETACHERS and cn not in CONSUME_ALWAYS
+        return cache[key]
+
+    def inline(self, cn, c, st, vs, node):
+        callee = self.u.functions[cn]
+        child = OwnAnalyzer(self.units, self.u, callee, self.fresh, self.tolerant, self.alloc_may_fail)
+        child.inlined = True
+        child.depth = self.depth + 1
+        child.sites = self.sites
+        s0 = st.copy()
+        for p, v in zip(callee.params, vs):
+            if v[0] == 'addrv':
+                v = ('ptrto', ('v', v[1]))
+            elif v[0] in ('addr', 'deref', 'retflag'):
+                v = NN if v[0] == 'addr' else UNK
+            if v == UNK:
+                s0.vals.pop(('v', p['d']), None)
+            else:
+                s0.vals[('v', p['d'])] = v
+        child.run(init_states=[s0], check_leaks=False)
+        # findings of the helper that concern blocks (double release, use after release, lost blocks) are the caller's
+        for f in child.findings.values():
+            self.find(f.rule, c, '%s (inside %s)' % (f.what, cn), f.detail, f.key + '@' + cn, None)
+        own_keys = {('v', p['d']) for p in callee.params} | {('v', d['d']) for d in callee.locals()}
+        outs = []
+        for (rn, s2) in child.exit_states:
+            s2 = s2.copy()
+            rv = s2.vals.pop(('retval',), UNK)
+            for k in list(s2.vals):
+                if k in own_keys or (k[0] == 'lf' and ('v', k[1]) in own_keys) or k[0] in ('bv', 'cond', 'condarm'):
+                    if k in own_keys or k[0] != 'lf':
+                        del s2.vals[k]
+            if rv[0] == 'ptrto':
+                rv = UNK
+            outs.append((s2, rv))
+        if not outs:
+            return []
+        return outs
 
     def units_functions(self):
         names = set()
@@ -723,10 +815,9 @@ class OwnAnalyzer:
             for st in states:
                 for (s2, v) in self.eval(node.expr, st, node):
                     s2 = s2.copy()
-                    if v[0] == 'tok':
+                    s2.vals[('retval',)] = v
+                    if v[0] == 'tok' and not self.inlined:
                         self.escape(s2, v[1])
-                    if v[0] == 'retflag':
-                        pass
                     outs.append(s2)
             return outs
         if node.name and node.name.startswith('cond-arm'):
@@ -750,6 +841,12 @@ class OwnAnalyzer:
         key = self.var_key(e)
         if key is not None:
             return key, st.vals.get(key, UNK)
+        if e.get('k') == 'un' and e['op'] == '*':
+            ik = self.var_key(e['e'])
+            if ik is not None:
+                pv = st.vals.get(ik, UNK)
+                if pv[0] == 'ptrto':
+                    return pv[1], st.vals.get(pv[1], UNK)
         if e.get('k') == 'mem':
             b = strip_casts(e['b'])
             bk = self.var_key(b)
@@ -826,12 +923,11 @@ class OwnAnalyzer:
         return st
 
     # ---- driver -------------------------------------------------------------------------------------------------------------------
-    def run(self):
+    def run(self, init_states=None, check_leaks=True):
         cfg = self.cfg
-        init = S()
-        for p in self.fn.params:
-            pass
-        instates = {cfg.entry.id: {init.key(): init}}
+        if init_states is None:
+            init_states = [S()]
+        instates = {cfg.entry.id: {s0.key(): s0 for s0 in init_states}}
         order = cfg.rpo()
         pos = {n: i for i, n in enumerate(order)}
         work = [cfg.entry.id]
@@ -879,6 +975,19 @@ class OwnAnalyzer:
             if node.kind == 'return':
                 for s2 in outs:
                     ret_states.append((node, s2))
+            elif nid == cfg.exit.id:
+                pass
+        # void functions: states reaching the exit node without a return statement
+        for (pnid, lab) in cfg.pred[cfg.exit.id]:
+            pn = cfg.nodes[pnid]
+            if pn.kind != 'return':
+                for s2 in self.transfer(pn, list(instates.get(pnid, {}).values())):
+                    s3 = self.refine(pn, lab, s2) if lab is not None else s2
+                    if s3 is not None:
+                        ret_states.append((pn, self.gc(s3)))
+        self.exit_states = ret_states
+        if not check_leaks:
+            return list(self.findings.values())
         # leak check at returns
         for (node, st) in ret_states:
             self.checked['ret'] += 1
@@ -1083,8 +1192,7 @@ def own_engine(units, R, unit_name='cJSON.c', alloc_may_fail=True, only=None, sk
 FLAG_FOR_FIELD = {'valuestring': 'cJSON_IsReference', 'child': 'cJSON_IsReference', 'string': 'cJSON_StringIsConst'}
 
 
-def _release_calls(u, fn):
-    """(call node, released expression, deep) for every release in fn."""
+def _direct_release_calls(u, fn):
     out = []
     for c in fn.calls():
         cn = callee_name(c)
@@ -1095,6 +1203,53 @@ def _release_calls(u, fn):
     return out
 
 
+_helper_cache = {}
+
+
+def release_helpers(u):
+    """Static helpers that release a field of one of their node parameters and leave the field to the caller:
+    name -> [(param index, field, deep)].  A call of such a helper is a release of arg->field in the caller."""
+    if id(u) in _helper_cache:
+        return _helper_cache[id(u)]
+    out = {}
+    for fn in u.function_list:
+        if not fn.static:
+            continue
+        callers = [g for g in u.function_list for c in g.calls() if callee_name(c) == fn.name]
+        if not callers:
+            continue
+        for (c, e, deep) in _direct_release_calls(u, fn):
+            if e.get('k') == 'mem' and is_ref(e['b']) and strip_casts(e['b']).get('dk') == 'param':
+                pi = [i for i, p in enumerate(fn.params) if p['d'] == strip_casts(e['b'])['d']]
+                # the helper does not store the field itself afterwards
+                base = expr_str(strip_casts(e['b']))
+                restored = any(strip_casts(a['l']).get('k') == 'mem' and expr_str(strip_casts(a['l'])) == expr_str(e) for a in assignments(fn)) \
+                    or any(expr_str(strip_casts(a['l'])) == '*' + base for a in assignments(fn)) \
+                    or any(callee_name(x) in ('memcpy', 'memset') and x['args'] and expr_str(strip_casts(x['args'][0])) == base for x in fn.calls()) \
+                    or any((callee_name(x) in RELEASES or (callee_name(x) is None and indirect_field(x) == 'deallocate')) and x['args'] and
+                           expr_str(strip_casts(x['args'][0])) == base for x in fn.calls())
+                if pi and not restored:
+                    out.setdefault(fn.name, []).append((pi[0], e['f'], deep, e))
+    _helper_cache[id(u)] = out
+    return out
+
+
+def _release_calls(u, fn):
+    """(call node, released expression, deep) for every release in fn, including calls of helpers that release a field
+    of their argument (the released expression is then the synthetic arg->field)."""
+    out = _direct_release_calls(u, fn)
+    helpers = release_helpers(u)
+    for c in fn.calls():
+        cn = callee_name(c)
+        if cn in helpers and cn != fn.name:
+            for (pi, field, deep, proto) in helpers[cn]:
+                if pi < len(c['args']):
+                    syn = {'k': 'mem', 'f': field, 'arrow': True, 'b': c['args'][pi], 'ty': proto['ty'], 'id': -c['id'] - 1,
+                           'loc': c['loc'], 'via_helper': cn}
+                    out.append((c, syn, deep))
+    return out
+
+
 def own5(units, R):
     """cJSON.c: every release of X->valuestring / X->child (cJSON_Delete) / X->string is reachable only through the
     clear edge of a test of the ownership bit describing that memory on the same X, and X->type is not modified
@@ -1102,7 +1257,7 @@ def own5(units, R):
     u = units['cJSON.c']
     n = 0
     for fn in u.function_list:
-        rel = [(c, e, deep) for (c, e, deep) in _release_calls(u, fn) if e.get('k') == 'mem' and e['f'] in FLAG_FOR_FIELD
+        rel = [(c, e, deep) for (c, e, deep) in _direct_release_calls(u, fn) if e.get('k') == 'mem' and e['f'] in FLAG_FOR_FIELD
                and 'cJSON' in u.ty(strip_casts(e['b'])['ty'])['s']]
         if not rel:
             continue
@@ -1260,8 +1415,13 @@ def own4_dangling(units, R, unit_names=('cJSON.c', 'cJSON_Utils.c')):
         u = units[un]
         for fn in u.function_list:
             rel = []
+            if fn.name in release_helpers(u):
+                R.note('OWN4: %s releases a field of its argument and leaves the store to its callers; each call site is checked' % fn.name)
             for (c, e, deep) in _release_calls(u, fn):
                 if e.get('k') != 'mem':
+                    continue
+                if fn.name in release_helpers(u) and not e.get('via_helper') and \
+                        any(expr_str(e) == expr_str(pr) for (_pi, _f, _d, pr) in release_helpers(u)[fn.name]):
                     continue
                 b = strip_casts(e['b'])
                 root = b
@@ -1289,6 +1449,8 @@ def own4_dangling(units, R, unit_names=('cJSON.c', 'cJSON_Utils.c')):
                                 fixes.add(m.id)
                             if cn in ('memcpy', 'memset') and args and args[0] == X:
                                 fixes.add(m.id)
+                        if ev.kind == 'store' and expr_str(strip_casts(ev.lhs)) in ('*' + X, '*%s' % X):
+                            fixes.add(m.id)      # *X = ... replaces the whole node
                 reach = cfg.reachable(rn.id, stop=fixes)
                 ok = cfg.exit.id not in reach or rn.id in fixes
                 # a loop that re-tests and moves on (cJSON_Delete: item = next) releases X itself afterwards
@@ -1318,7 +1480,8 @@ def ref_constructors(units, R):
     n += 1
     ok_key = any(is_null_const(a['r']) for a in stores.get('string', []))
     R.ob('REFC', fn, None, 'reference node has no key of its own', ok_key, 'string = NULL' if ok_key else 'key pointer shared with the referent', key='ref-key')
-    ok_bit = any(a['op'] == '|=' and 'cJSON_IsReference' in (strip_casts(a['r']).get('m') or []) for a in stores.get('type', []))
+    from .lst import _mentions_macro
+    ok_bit = any(_mentions_macro(a, 'cJSON_IsReference') for a in stores.get('type', []))
     R.ob('REFC', fn, None, 'reference node carries cJSON_IsReference', ok_bit, '', key='ref-bit')
     for f in ('next', 'prev'):
         okl = bool(stores.get(f))
